@@ -945,7 +945,10 @@ func replCase(c Val) Val {
 	setup()
 	runtime.GC()
 	first := int(c.At(1).Int()) & 1
-	attach := [2]bool{c.At(2).Bool(), c.At(3).Bool()}
+	// consumer of stream 1: 0 none, 1 before the second registration, 2 between its swap and its look at the
+	// consumer count, 3 right after stream 1's status became "replaced", 4 after the second registration
+	t1 := c.At(2).Int()
+	attach := [2]bool{t1 == 1, c.At(3).Bool()}
 	end2first := c.At(4).Bool()
 	kinds := [2]int64{c.At(5).Int(), c.At(6).Int()}
 	media.VerifResetRegistry()
@@ -987,7 +990,24 @@ func replCase(c Val) Val {
 			leakSeen = true
 		}
 	}
+	defer verifhook.SetPoint(nil)
 	for n := 0; n < 2; n++ {
+		if n == 1 && (t1 == 2 || t1 == 3) {
+			// the consumer of stream 1 joins while the second registration is in progress
+			want := "regist.swapped"
+			if t1 == 3 {
+				want = "close.status"
+			}
+			var fired int32
+			s1 := st[0]
+			cons[0] = &cntConsumer{}
+			c0 := cons[0]
+			verifhook.SetPoint(func(name string, id uint32) {
+				if name == want && atomic.CompareAndSwapInt32(&fired, 0, 1) {
+					s1.StartConsume(c0, media.RTPPacket, "c20repl")
+				}
+			})
+		}
 		close(conn[order[n]].gate)
 		select {
 		case st[n] = <-res[order[n]]:
@@ -1004,8 +1024,13 @@ func replCase(c Val) Val {
 			s.StartConsume(cons[n], media.RTPPacket, "c20repl")
 		}
 	}
+	verifhook.SetPoint(nil)
 	if st[0] == st[1] {
 		panic("c20repl: the two requests did not overlap (set-up)")
+	}
+	if t1 == 4 { // the first requester joins the stream it was handed only now
+		cons[0] = &cntConsumer{}
+		st[0].StartConsume(cons[0], media.RTPPacket, "c20repl")
 	}
 	running := [2]bool{true, true}
 	observe := func() Val {
@@ -1043,7 +1068,7 @@ func replCase(c Val) Val {
 	for i := 0; i < 2; i++ {
 		conn[i].cmd <- -1
 	}
-	running[0] = attach[0]
+	running[0] = t1 == 1 || t1 == 2 // stream 1 had a consumer when it was replaced: it lives on
 	o1 := observe()
 	e := [2]int{0, 1}
 	if end2first {
